@@ -1,2 +1,1102 @@
-//! C20 workload (under construction).
-fn main() {}
+//! C20 — operator, wrapper and trait facades agree with the inherent methods.
+//!
+//! The oracle is differential: every facade entry point (operator impl shape,
+//! `Bits` forward, num-traits / num-integer / subtle / zeroize trait method,
+//! `Sum`/`Product`) is evaluated under `catch_unwind` next to the inherent
+//! `Uint` method of the same documented meaning, and the two outcomes must be
+//! equal (same value, flag, `None`, or both panic).  The inherent methods
+//! themselves are judged against BigUint by C01–C13, not here.
+//!
+//! No facade trait is imported with `use`: every trait call is written as
+//! `<Uint<B, L> as Trait>::method(..)` and every inherent call as a plain method
+//! call, so a name shared by both can never silently resolve to the wrong one.
+
+use num_integer as ni;
+use num_traits as nt;
+use ruint::{Bits, Uint};
+use serde_json::json;
+use std::{cell::RefCell, collections::BTreeSet, fmt::Debug};
+use vmon::{an, au, big, gen, mon::short_file, rng::Rng, uint, Arg, Mon, Panic};
+
+#[cfg(not(target_endian = "little"))]
+compile_error!("harness: the C20 byte-order expectations are written for little-endian targets");
+
+vmon::widths!(exec; 0, 1, 2, 7, 8, 16, 31, 32, 63, 64, 65, 100, 127, 128, 129, 192, 250, 255, 256, 257,
+    384, 512);
+
+thread_local! {
+    /// Distinct facade entry points (`kind`s) compared so far (reported as a note).
+    static KINDS: RefCell<BTreeSet<&'static str>> = const { RefCell::new(BTreeSet::new()) };
+}
+
+/// Canonical-form check on every `Uint` inside a compared value.
+trait Canon {
+    fn canon(&self, _m: &mut Mon) {}
+}
+impl<const B: usize, const L: usize> Canon for Uint<B, L> {
+    fn canon(&self, m: &mut Mon) {
+        m.canonical(self);
+    }
+}
+impl<const B: usize, const L: usize> Canon for Bits<B, L> {
+    fn canon(&self, m: &mut Mon) {
+        m.canonical(self.as_uint());
+    }
+}
+impl<T: Canon> Canon for Option<T> {
+    fn canon(&self, m: &mut Mon) {
+        if let Some(v) = self {
+            v.canon(m);
+        }
+    }
+}
+impl<T: Canon, E> Canon for Result<T, E> {
+    fn canon(&self, m: &mut Mon) {
+        if let Ok(v) = self {
+            v.canon(m);
+        }
+    }
+}
+impl<S: Canon, T: Canon> Canon for (S, T) {
+    fn canon(&self, m: &mut Mon) {
+        self.0.canon(m);
+        self.1.canon(m);
+    }
+}
+impl<T: Canon> Canon for ni::ExtendedGcd<T> {
+    fn canon(&self, m: &mut Mon) {
+        self.gcd.canon(m);
+        self.x.canon(m);
+        self.y.canon(m);
+    }
+}
+macro_rules! plain_canon {
+    ($($t:ty),*) => {$(impl Canon for $t {})*};
+}
+plain_canon!(bool, u8, u16, u32, u64, u128, usize, i8, i16, i32, i64, i128, isize, Vec<u8>, ());
+impl<const N: usize> Canon for [u64; N] {}
+
+fn pmsg(p: &Panic) -> String {
+    format!("panic: {} at {}:{}", p.msg, short_file(&p.file), p.line)
+}
+
+/// Per-case comparison context.
+struct Cx<'a> {
+    m: &'a mut Mon,
+    checks: u32,
+    both_panic: u32,
+    register: bool,
+}
+
+impl Cx<'_> {
+    /// An inherent result was produced: check its canonical form too.
+    fn seen<T: Canon>(&mut self, r: &Result<T, Panic>) {
+        if let Ok(v) = r {
+            v.canon(self.m);
+        }
+    }
+
+    fn count(&mut self, kind: &'static str) {
+        self.checks += 1;
+        if self.register {
+            KINDS.with(|k| {
+                k.borrow_mut().insert(kind);
+            });
+        }
+    }
+
+    /// Facade outcome `f` must equal inherent outcome `e`: same value, or both
+    /// panic.  Exactly one of them panicking is a disagreement.
+    fn cmp<T: PartialEq + Debug + Canon>(&mut self, kind: &'static str, f: Result<T, Panic>, e: &Result<T, Panic>) {
+        self.count(kind);
+        match (f, e) {
+            (Ok(f), Ok(e)) => {
+                f.canon(self.m);
+                self.m.eq(kind, &f, e);
+            }
+            (Err(_), Err(_)) => self.both_panic += 1,
+            (Err(p), Ok(e)) => self.m.fail(kind, &format!("{e:?}"), &pmsg(&p)),
+            (Ok(f), Err(p)) => {
+                f.canon(self.m);
+                self.m.fail(kind, &format!("a panic, as the inherent method ({})", pmsg(p)), &format!("{f:?}"));
+            }
+        }
+    }
+
+    /// Facade whose signature cannot express the inherent `None`: it must return
+    /// the inherent `Some` value, and must panic where the inherent method
+    /// returns `None` or panics.
+    fn cmp_unwrapping<T: PartialEq + Debug + Canon>(
+        &mut self,
+        kind: &'static str,
+        f: Result<T, Panic>,
+        e: &Result<Option<T>, Panic>,
+    ) {
+        self.count(kind);
+        match (f, e) {
+            (Ok(f), Ok(Some(e))) => {
+                f.canon(self.m);
+                self.m.eq(kind, &f, e);
+            }
+            (Err(p), Ok(Some(e))) => self.m.fail(kind, &format!("{e:?}"), &pmsg(&p)),
+            (Err(_), Ok(None) | Err(_)) => self.both_panic += 1,
+            (Ok(f), Ok(None)) => {
+                f.canon(self.m);
+                self.m.fail(kind, "a panic (the inherent method reports None)", &format!("{f:?}"));
+            }
+            (Ok(f), Err(p)) => {
+                f.canon(self.m);
+                self.m.fail(kind, &format!("a panic, as the inherent method ({})", pmsg(p)), &format!("{f:?}"));
+            }
+        }
+    }
+
+    /// Default (not ruint-written) trait method checked against an inherent
+    /// method that may be defective itself: only demand equality where the
+    /// inherent method produced a value.
+    fn cmp_where_defined<T: PartialEq + Debug + Canon>(
+        &mut self,
+        kind: &'static str,
+        f: Result<T, Panic>,
+        e: &Result<Option<T>, Panic>,
+    ) {
+        if let Ok(Some(e)) = e {
+            self.count(kind);
+            match f {
+                Ok(f) => {
+                    f.canon(self.m);
+                    self.m.eq(kind, &f, e);
+                }
+                Err(p) => self.m.fail(kind, &format!("{e:?}"), &pmsg(&p)),
+            }
+        }
+    }
+}
+
+/// The type under test at the call site (generic parameters resolve there).
+macro_rules! U {
+    () => { Uint<B, L> };
+}
+
+/// Evaluate the inherent side under `catch_unwind`.
+macro_rules! inh {
+    ($c:ident, $e:expr) => {{
+        let r = $c.m.call(|| $e);
+        $c.seen(&r);
+        r
+    }};
+}
+
+/// Evaluate a facade under `catch_unwind` and compare with the inherent outcome.
+macro_rules! chk {
+    ($c:ident, $kind:expr, $f:expr, $e:expr) => {{
+        let r = $c.m.call(|| $f);
+        $c.cmp($kind, r, $e);
+    }};
+}
+
+/// The six operator-impl shapes of one binary operator.
+macro_rules! six {
+    ($c:ident, $x:ident, $y:ident, $name:literal, $op:tt, $opa:tt, $e:expr) => {{
+        let e = $e;
+        chk!($c, concat!($name, ".vv"), $x $op $y, &e);
+        chk!($c, concat!($name, ".vr"), $x $op &$y, &e);
+        chk!($c, concat!($name, ".rv"), &$x $op $y, &e);
+        chk!($c, concat!($name, ".rr"), &$x $op &$y, &e);
+        chk!($c, concat!($name, "Assign.v"), { let mut z = $x; z $opa $y; z }, &e);
+        chk!($c, concat!($name, "Assign.r"), { let mut z = $x; z $opa &$y; z }, &e);
+    }};
+}
+
+/// `<< >> <<= >>=` by value and by reference for every integer amount type the
+/// (non-negative) amount fits in.
+macro_rules! shifts {
+    ($c:ident, $x:ident, $amt:ident, $el:ident, $er:ident; $($t:ident)*) => {$(
+        if let Ok(s) = <$t>::try_from($amt) {
+            chk!($c, concat!("Shl<", stringify!($t), ">"), $x << s, &$el);
+            chk!($c, concat!("Shl<&", stringify!($t), ">"), $x << &s, &$el);
+            chk!($c, concat!("ShlAssign<", stringify!($t), ">"), { let mut z = $x; z <<= s; z }, &$el);
+            chk!($c, concat!("ShlAssign<&", stringify!($t), ">"), { let mut z = $x; z <<= &s; z }, &$el);
+            chk!($c, concat!("Shr<", stringify!($t), ">"), $x >> s, &$er);
+            chk!($c, concat!("Shr<&", stringify!($t), ">"), $x >> &s, &$er);
+            chk!($c, concat!("ShrAssign<", stringify!($t), ">"), { let mut z = $x; z >>= s; z }, &$er);
+            chk!($c, concat!("ShrAssign<&", stringify!($t), ">"), { let mut z = $x; z >>= &s; z }, &$er);
+        }
+    )*};
+}
+
+fn limbwise<const B: usize, const L: usize>(x: &[u64], y: &[u64], f: fn(u64, u64) -> u64) -> Result<Uint<B, L>, Panic> {
+    let mut l = [0u64; L];
+    for i in 0..L {
+        l[i] = f(x[i], y[i]);
+    }
+    Ok(uint(&l))
+}
+
+fn all_zero(a: &[Arg]) -> bool {
+    a.iter().all(|x| match x {
+        Arg::U(v) => gen::is_zero(v),
+        _ => true,
+    })
+}
+
+fn exec<const B: usize, const L: usize>(m: &mut Mon, op: &str, a: &[Arg]) {
+    let register = m.evaluations < 8192 || m.evaluations % 16 == 0;
+    let mut c = Cx { m, checks: 0, both_panic: 0, register };
+    c.m.nontrivial(!all_zero(a));
+    match op {
+        "binop" => binop::<B, L>(&mut c, a),
+        "shift" => shift::<B, L>(&mut c, a),
+        "bits_wrapper" => bits_wrapper::<B, L>(&mut c, a),
+        "num_traits" => num_traits::<B, L>(&mut c, a),
+        "num_integer" => num_integer::<B, L>(&mut c, a),
+        "subtle" => subtle_op::<B, L>(&mut c, a),
+        "sum_product" => sum_product::<B, L>(&mut c, a),
+        "zeroize" => zeroize_op::<B, L>(&mut c, a),
+        _ => panic!("harness: unknown op {op}"),
+    }
+    let (n, p) = (c.checks, c.both_panic);
+    c.m.obs(|| format!("{n} facade outcomes equal the inherent outcome ({p} of them: both panic)"));
+}
+
+// ---------------------------------------------------------------- binop
+
+fn binop<const B: usize, const L: usize>(c: &mut Cx, a: &[Arg]) {
+    let (xl, yl) = (a[0].u(), a[1].u());
+    let (x, y): (U!(), U!()) = (uint(xl), uint(yl));
+    six!(c, x, y, "Add", +, +=, inh!(c, x.wrapping_add(y)));
+    six!(c, x, y, "Sub", -, -=, inh!(c, x.wrapping_sub(y)));
+    six!(c, x, y, "Mul", *, *=, inh!(c, x.wrapping_mul(y)));
+    six!(c, x, y, "Div", /, /=, inh!(c, x.wrapping_div(y)));
+    six!(c, x, y, "Rem", %, %=, inh!(c, x.wrapping_rem(y)));
+    six!(c, x, y, "BitAnd", &, &=, limbwise::<B, L>(xl, yl, |p, q| p & q));
+    six!(c, x, y, "BitOr", |, |=, limbwise::<B, L>(xl, yl, |p, q| p | q));
+    six!(c, x, y, "BitXor", ^, ^=, limbwise::<B, L>(xl, yl, |p, q| p ^ q));
+    let e = inh!(c, x.wrapping_neg());
+    chk!(c, "Neg.v", -x, &e);
+    chk!(c, "Neg.r", -&x, &e);
+    let e = inh!(c, x.not());
+    chk!(c, "Not.v", !x, &e);
+    chk!(c, "Not.r", !&x, &e);
+}
+
+// ---------------------------------------------------------------- shift
+
+fn shift<const B: usize, const L: usize>(c: &mut Cx, a: &[Arg]) {
+    let x: U!() = uint(a[0].u());
+    let amt = a[1].n();
+    let Ok(s) = usize::try_from(amt) else {
+        panic!("harness: shift amount {amt} does not fit usize");
+    };
+    let el = inh!(c, x.wrapping_shl(s));
+    let er = inh!(c, x.wrapping_shr(s));
+    shifts!(c, x, amt, el, er; usize u8 u16 u32 u64 isize i8 i16 i32 i64);
+    // `Uint` amounts: only where the amount is a value of the type (and fits
+    // usize, which every generated amount does), so that an inherent call of
+    // the same meaning exists.
+    if L > 0 && (L > 1 || amt as u64 <= gen::mask(B)) {
+        let sa: U!() = uint(&gen::small(amt as u64, B));
+        chk!(c, "Shl<Uint>", x << sa, &el);
+        chk!(c, "Shl<&Uint>", x << &sa, &el);
+        chk!(c, "ShlAssign<Uint>", { let mut z = x; z <<= sa; z }, &el);
+        chk!(c, "ShlAssign<&Uint>", { let mut z = x; z <<= &sa; z }, &el);
+        chk!(c, "Shr<Uint>", x >> sa, &er);
+        chk!(c, "Shr<&Uint>", x >> &sa, &er);
+        chk!(c, "ShrAssign<Uint>", { let mut z = x; z >>= sa; z }, &er);
+        chk!(c, "ShrAssign<&Uint>", { let mut z = x; z >>= &sa; z }, &er);
+    }
+}
+
+// ---------------------------------------------------------------- Bits
+
+/// The const-generic byte-array methods need `BYTES` as a literal.
+macro_rules! byte_arrays {
+    ($c:ident, $x:ident, $bx:ident, $bytes:ident; $($n:literal)*) => {
+        match (B + 7) / 8 {
+            $($n => {
+                let e = inh!($c, $x.to_le_bytes::<$n>().to_vec());
+                chk!($c, "Bits::to_le_bytes", $bx.to_le_bytes::<$n>().to_vec(), &e);
+                let e = inh!($c, $x.to_be_bytes::<$n>().to_vec());
+                chk!($c, "Bits::to_be_bytes", $bx.to_be_bytes::<$n>().to_vec(), &e);
+                let mut arr = [0u8; $n];
+                let k = $bytes.len().min($n);
+                arr[..k].copy_from_slice(&$bytes[..k]);
+                let e = inh!($c, <U!()>::from_le_bytes::<$n>(arr));
+                chk!($c, "Bits::from_le_bytes", Bits::<B, L>::from_le_bytes::<$n>(arr).into_inner(), &e);
+                let e = inh!($c, <U!()>::from_be_bytes::<$n>(arr));
+                chk!($c, "Bits::from_be_bytes", Bits::<B, L>::from_be_bytes::<$n>(arr).into_inner(), &e);
+            })*
+            n => panic!("harness: byte width {n} not instantiated"),
+        }
+    };
+}
+
+fn bits_wrapper<const B: usize, const L: usize>(c: &mut Cx, a: &[Arg]) {
+    let (x, y): (U!(), U!()) = (uint(a[0].u()), uint(a[1].u()));
+    let s = a[2].us();
+    let bytes = a[3].b();
+    let text = a[4].s();
+    let radix = a[5].n() as u64;
+    let (bx, by): (Bits<B, L>, Bits<B, L>) = (Bits::from(x), Bits::from(y));
+
+    // Wrapping and unwrapping.
+    chk!(c, "Bits::into_inner", bx.into_inner(), &Ok(x));
+    chk!(c, "Bits::as_uint", *bx.as_uint(), &Ok(x));
+    chk!(c, "Bits::as_uint_mut", { let mut t = bx; *t.as_uint_mut() = y; t.into_inner() }, &Ok(y));
+    chk!(c, "From<Bits> for Uint", <U!() as From<Bits<B, L>>>::from(bx), &Ok(x));
+    chk!(c, "From<Uint> for Bits", *<Bits<B, L> as From<U!()>>::from(x).as_uint(), &Ok(x));
+    chk!(c, "Bits::ZERO", Bits::<B, L>::ZERO.into_inner(), &Ok(<U!()>::ZERO));
+    chk!(c, "Bits::default", Bits::<B, L>::default().into_inner(), &Ok(<U!()>::default()));
+    chk!(c, "Bits::BITS", Bits::<B, L>::BITS, &Ok(<U!()>::BITS));
+    chk!(c, "Bits::LIMBS", Bits::<B, L>::LIMBS, &Ok(<U!()>::LIMBS));
+    chk!(c, "Bits::BYTES", Bits::<B, L>::BYTES, &Ok(<U!()>::BYTES));
+    chk!(c, "Bits::eq", bx == by, &Ok(x == y));
+    chk!(c, "Bits::ne", bx != by, &Ok(x != y));
+
+    // forward! methods.
+    let e = inh!(c, x.reverse_bits());
+    chk!(c, "Bits::reverse_bits", bx.reverse_bits().into_inner(), &e);
+    let e = inh!(c, x.as_le_bytes().into_owned());
+    chk!(c, "Bits::as_le_bytes", bx.as_le_bytes().into_owned(), &e);
+    let e = inh!(c, x.to_be_bytes_vec());
+    chk!(c, "Bits::to_be_bytes_vec", bx.to_be_bytes_vec(), &e);
+    byte_arrays!(c, x, bx, bytes; 0 1 2 4 8 9 13 16 17 24 32 33 48 64);
+    let e = inh!(c, x.leading_zeros());
+    chk!(c, "Bits::leading_zeros", bx.leading_zeros(), &e);
+    let e = inh!(c, x.leading_ones());
+    chk!(c, "Bits::leading_ones", bx.leading_ones(), &e);
+    let e = inh!(c, x.trailing_zeros());
+    chk!(c, "Bits::trailing_zeros", bx.trailing_zeros(), &e);
+    let e = inh!(c, x.trailing_ones());
+    chk!(c, "Bits::trailing_ones", bx.trailing_ones(), &e);
+    let e = inh!(c, { let mut t = x; unsafe { *t.as_limbs_mut() } });
+    chk!(c, "Bits::as_limbs_mut.read", { let mut t = bx; unsafe { *t.as_limbs_mut() } }, &e);
+    let e = inh!(c, { let mut t = x; unsafe { *t.as_limbs_mut() = *y.as_limbs() }; t });
+    chk!(c, "Bits::as_limbs_mut.write", { let mut t = bx; unsafe { *t.as_limbs_mut() = *y.as_limbs() }; t.into_inner() }, &e);
+    let e = inh!(c, x.checked_shl(s));
+    chk!(c, "Bits::checked_shl", bx.checked_shl(s).map(Bits::into_inner), &e);
+    let e = inh!(c, x.checked_shr(s));
+    chk!(c, "Bits::checked_shr", bx.checked_shr(s).map(Bits::into_inner), &e);
+    let e = inh!(c, x.overflowing_shl(s));
+    chk!(c, "Bits::overflowing_shl", { let (v, f) = bx.overflowing_shl(s); (v.into_inner(), f) }, &e);
+    let e = inh!(c, x.overflowing_shr(s));
+    chk!(c, "Bits::overflowing_shr", { let (v, f) = bx.overflowing_shr(s); (v.into_inner(), f) }, &e);
+    let el = inh!(c, x.wrapping_shl(s));
+    chk!(c, "Bits::wrapping_shl", bx.wrapping_shl(s).into_inner(), &el);
+    let er = inh!(c, x.wrapping_shr(s));
+    chk!(c, "Bits::wrapping_shr", bx.wrapping_shr(s).into_inner(), &er);
+    let e = inh!(c, x.rotate_left(s));
+    chk!(c, "Bits::rotate_left", bx.rotate_left(s).into_inner(), &e);
+    let e = inh!(c, x.rotate_right(s));
+    chk!(c, "Bits::rotate_right", bx.rotate_right(s).into_inner(), &e);
+    let e = inh!(c, <U!()>::try_from_be_slice(bytes));
+    chk!(c, "Bits::try_from_be_slice", Bits::<B, L>::try_from_be_slice(bytes).map(Bits::into_inner), &e);
+    let e = inh!(c, <U!()>::try_from_le_slice(bytes));
+    chk!(c, "Bits::try_from_le_slice", Bits::<B, L>::try_from_le_slice(bytes).map(Bits::into_inner), &e);
+    let e = inh!(c, <U!()>::from_str_radix(text, radix));
+    chk!(c, "Bits::from_str_radix", Bits::<B, L>::from_str_radix(text, radix).map(Bits::into_inner), &e);
+    let e = inh!(c, text.parse::<U!()>());
+    chk!(c, "Bits::from_str", text.parse::<Bits<B, L>>().map(Bits::into_inner), &e);
+    let e = inh!(c, <U!()>::from_limbs(*y.as_limbs()));
+    chk!(c, "Bits::from_limbs", Bits::<B, L>::from_limbs(*y.as_limbs()).into_inner(), &e);
+    let e = inh!(c, <U!()>::from_limbs([u64::MAX; L]));
+    chk!(c, "Bits::from_limbs", Bits::<B, L>::from_limbs([u64::MAX; L]).into_inner(), &e);
+    let e = inh!(c, *x.as_limbs());
+    chk!(c, "Bits::as_limbs", *bx.as_limbs(), &e);
+
+    // Operators.
+    let e = inh!(c, x.bit(s));
+    chk!(c, "Bits::index", bx[s], &e);
+    let e = inh!(c, x.not());
+    chk!(c, "Bits::Not.v", (!bx).into_inner(), &e);
+    chk!(c, "Bits::Not.r", (!&bx).into_inner(), &e);
+    macro_rules! bits_six {
+        ($name:literal, $op:tt, $opa:tt) => {{
+            let e = inh!(c, x $op y);
+            chk!(c, concat!("Bits::", $name, ".vv"), (bx $op by).into_inner(), &e);
+            chk!(c, concat!("Bits::", $name, ".vr"), (bx $op &by).into_inner(), &e);
+            chk!(c, concat!("Bits::", $name, ".rv"), (&bx $op by).into_inner(), &e);
+            chk!(c, concat!("Bits::", $name, ".rr"), (&bx $op &by).into_inner(), &e);
+            chk!(c, concat!("Bits::", $name, "Assign.v"), { let mut z = bx; z $opa by; z.into_inner() }, &e);
+            chk!(c, concat!("Bits::", $name, "Assign.r"), { let mut z = bx; z $opa &by; z.into_inner() }, &e);
+        }};
+    }
+    bits_six!("BitOr", |, |=);
+    bits_six!("BitAnd", &, &=);
+    bits_six!("BitXor", ^, ^=);
+    macro_rules! bits_shift {
+        ($name:literal, $op:tt, $opa:tt, $e:ident) => {{
+            chk!(c, concat!("Bits::", $name, "<usize>.v"), (bx $op s).into_inner(), &$e);
+            chk!(c, concat!("Bits::", $name, "<usize>.r"), (&bx $op s).into_inner(), &$e);
+            chk!(c, concat!("Bits::", $name, "<&usize>.v"), (bx $op &s).into_inner(), &$e);
+            chk!(c, concat!("Bits::", $name, "<&usize>.r"), (&bx $op &s).into_inner(), &$e);
+            chk!(c, concat!("Bits::", $name, "Assign<usize>"), { let mut z = bx; z $opa s; z.into_inner() }, &$e);
+            chk!(c, concat!("Bits::", $name, "Assign<&usize>"), { let mut z = bx; z $opa &s; z.into_inner() }, &$e);
+        }};
+    }
+    bits_shift!("Shl", <<, <<=, el);
+    bits_shift!("Shr", >>, >>=, er);
+}
+
+// ---------------------------------------------------------------- num-traits
+
+macro_rules! to_prim {
+    ($c:ident, $x:ident; $($f:ident $t:ty),*) => {$(
+        let e = inh!($c, <$t>::try_from($x).ok());
+        chk!($c, concat!("ToPrimitive::", stringify!($f)), <U!() as nt::ToPrimitive>::$f(&$x), &e);
+    )*};
+}
+
+macro_rules! from_prim {
+    ($c:ident, $src:expr; $($f:ident $t:ty),*) => {$(
+        let v = $src as $t;
+        let e = inh!($c, <U!() as TryFrom<$t>>::try_from(v).ok());
+        chk!($c, concat!("FromPrimitive::", stringify!($f)), <U!() as nt::FromPrimitive>::$f(v), &e);
+        chk!($c, concat!("NumCast::from<", stringify!($t), ">"), <U!() as nt::NumCast>::from(v), &e);
+    )*};
+}
+
+fn limbs_from_le_bytes<const L: usize>(bytes: &[u8]) -> [u64; L] {
+    let mut l = [0u64; L];
+    assert!(bytes.len() <= 8 * L, "harness: {} bytes do not fit {} limbs", bytes.len(), L);
+    for (i, b) in bytes.iter().enumerate() {
+        l[i / 8] |= u64::from(*b) << (8 * (i % 8));
+    }
+    l
+}
+
+fn num_traits<const B: usize, const L: usize>(c: &mut Cx, a: &[Arg]) {
+    let (x, y, z, ex): (U!(), U!(), U!(), U!()) = (uint(a[0].u()), uint(a[1].u()), uint(a[2].u()), uint(a[3].u()));
+    let s32 = u32::try_from(a[4].n()).expect("harness: shift amount does not fit u32");
+    let s = s32 as usize;
+    let pu = a[5].n();
+    let pi = a[6].i();
+    let bytes = a[7].b();
+    let text = a[8].s();
+    let radix = u32::try_from(a[9].n()).expect("harness: radix does not fit u32");
+
+    // Identities and bounds.
+    chk!(c, "Zero::zero", <U!() as nt::Zero>::zero(), &Ok(<U!()>::ZERO));
+    let e = inh!(c, x.is_zero());
+    chk!(c, "Zero::is_zero", <U!() as nt::Zero>::is_zero(&x), &e);
+    chk!(c, "Zero::set_zero", { let mut t = x; <U!() as nt::Zero>::set_zero(&mut t); t }, &Ok(<U!()>::ZERO));
+    chk!(c, "One::one", <U!() as nt::One>::one(), &Ok(<U!()>::ONE));
+    chk!(c, "One::is_one", <U!() as nt::One>::is_one(&x), &Ok(x == <U!()>::ONE));
+    chk!(c, "One::set_one", { let mut t = x; <U!() as nt::One>::set_one(&mut t); t }, &Ok(<U!()>::ONE));
+    chk!(c, "Bounded::min_value", <U!() as nt::Bounded>::min_value(), &Ok(<U!()>::MIN));
+    chk!(c, "Bounded::max_value", <U!() as nt::Bounded>::max_value(), &Ok(<U!()>::MAX));
+
+    // Bytes.
+    let e = inh!(c, <U!()>::try_from_le_slice(bytes));
+    let r = c.m.call(|| <U!() as nt::FromBytes>::from_le_bytes(bytes));
+    c.cmp_unwrapping("FromBytes::from_le_bytes", r, &e);
+    let r = c.m.call(|| <U!() as nt::FromBytes>::from_ne_bytes(bytes));
+    c.cmp_unwrapping("FromBytes::from_ne_bytes", r, &e);
+    let e = inh!(c, <U!()>::try_from_be_slice(bytes));
+    let r = c.m.call(|| <U!() as nt::FromBytes>::from_be_bytes(bytes));
+    c.cmp_unwrapping("FromBytes::from_be_bytes", r, &e);
+    let e = inh!(c, x.to_le_bytes_vec());
+    chk!(c, "ToBytes::to_le_bytes", <U!() as nt::ToBytes>::to_le_bytes(&x), &e);
+    chk!(c, "ToBytes::to_ne_bytes", <U!() as nt::ToBytes>::to_ne_bytes(&x), &e);
+    let e = inh!(c, x.to_be_bytes_vec());
+    chk!(c, "ToBytes::to_be_bytes", <U!() as nt::ToBytes>::to_be_bytes(&x), &e);
+
+    // Checked family.
+    let e = inh!(c, x.checked_add(y));
+    chk!(c, "CheckedAdd::checked_add", <U!() as nt::CheckedAdd>::checked_add(&x, &y), &e);
+    let e = inh!(c, x.checked_sub(y));
+    chk!(c, "CheckedSub::checked_sub", <U!() as nt::CheckedSub>::checked_sub(&x, &y), &e);
+    let e = inh!(c, x.checked_mul(y));
+    chk!(c, "CheckedMul::checked_mul", <U!() as nt::CheckedMul>::checked_mul(&x, &y), &e);
+    let ed = inh!(c, x.checked_div(y));
+    chk!(c, "CheckedDiv::checked_div", <U!() as nt::CheckedDiv>::checked_div(&x, &y), &ed);
+    let er = inh!(c, x.checked_rem(y));
+    chk!(c, "CheckedRem::checked_rem", <U!() as nt::CheckedRem>::checked_rem(&x, &y), &er);
+    let e = inh!(c, x.checked_neg());
+    chk!(c, "CheckedNeg::checked_neg", <U!() as nt::CheckedNeg>::checked_neg(&x), &e);
+    let e = inh!(c, x.checked_shl(s));
+    chk!(c, "CheckedShl::checked_shl", <U!() as nt::CheckedShl>::checked_shl(&x, s32), &e);
+    let e = inh!(c, x.checked_shr(s));
+    chk!(c, "CheckedShr::checked_shr", <U!() as nt::CheckedShr>::checked_shr(&x, s32), &e);
+
+    // Euclidean division of unsigned values is plain division.
+    chk!(c, "CheckedEuclid::checked_div_euclid", <U!() as nt::CheckedEuclid>::checked_div_euclid(&x, &y), &ed);
+    chk!(c, "CheckedEuclid::checked_rem_euclid", <U!() as nt::CheckedEuclid>::checked_rem_euclid(&x, &y), &er);
+    let e = inh!(c, x.checked_div(y).zip(x.checked_rem(y)));
+    chk!(c, "CheckedEuclid::checked_div_rem_euclid", <U!() as nt::CheckedEuclid>::checked_div_rem_euclid(&x, &y), &e);
+    let e = inh!(c, x.wrapping_div(y));
+    chk!(c, "Euclid::div_euclid", <U!() as nt::Euclid>::div_euclid(&x, &y), &e);
+    let e = inh!(c, x.wrapping_rem(y));
+    chk!(c, "Euclid::rem_euclid", <U!() as nt::Euclid>::rem_euclid(&x, &y), &e);
+    let e = inh!(c, x.div_rem(y));
+    chk!(c, "Euclid::div_rem_euclid", <U!() as nt::Euclid>::div_rem_euclid(&x, &y), &e);
+
+    // Inverse, fused multiply-add.
+    let e = inh!(c, x.inv_ring());
+    chk!(c, "Inv::inv", <U!() as nt::Inv>::inv(x), &e);
+    let e = inh!(c, x.wrapping_mul(y).wrapping_add(z));
+    chk!(c, "MulAdd::mul_add", <U!() as nt::MulAdd>::mul_add(x, y, z), &e);
+    chk!(c, "MulAddAssign::mul_add_assign", { let mut t = x; <U!() as nt::MulAddAssign>::mul_add_assign(&mut t, y, z); t }, &e);
+
+    // Saturating, wrapping, overflowing families.
+    let e = inh!(c, x.saturating_add(y));
+    chk!(c, "Saturating::saturating_add", <U!() as nt::Saturating>::saturating_add(x, y), &e);
+    chk!(c, "SaturatingAdd::saturating_add", <U!() as nt::SaturatingAdd>::saturating_add(&x, &y), &e);
+    let e = inh!(c, x.saturating_sub(y));
+    chk!(c, "Saturating::saturating_sub", <U!() as nt::Saturating>::saturating_sub(x, y), &e);
+    chk!(c, "SaturatingSub::saturating_sub", <U!() as nt::SaturatingSub>::saturating_sub(&x, &y), &e);
+    let e = inh!(c, x.saturating_mul(y));
+    chk!(c, "SaturatingMul::saturating_mul", <U!() as nt::SaturatingMul>::saturating_mul(&x, &y), &e);
+    let e = inh!(c, x.wrapping_add(y));
+    chk!(c, "WrappingAdd::wrapping_add", <U!() as nt::WrappingAdd>::wrapping_add(&x, &y), &e);
+    let e = inh!(c, x.wrapping_sub(y));
+    chk!(c, "WrappingSub::wrapping_sub", <U!() as nt::WrappingSub>::wrapping_sub(&x, &y), &e);
+    let e = inh!(c, x.wrapping_mul(y));
+    chk!(c, "WrappingMul::wrapping_mul", <U!() as nt::WrappingMul>::wrapping_mul(&x, &y), &e);
+    let e = inh!(c, x.wrapping_neg());
+    chk!(c, "WrappingNeg::wrapping_neg", <U!() as nt::WrappingNeg>::wrapping_neg(&x), &e);
+    let esl = inh!(c, x.wrapping_shl(s));
+    chk!(c, "WrappingShl::wrapping_shl", <U!() as nt::WrappingShl>::wrapping_shl(&x, s32), &esl);
+    let esr = inh!(c, x.wrapping_shr(s));
+    chk!(c, "WrappingShr::wrapping_shr", <U!() as nt::WrappingShr>::wrapping_shr(&x, s32), &esr);
+    let e = inh!(c, x.overflowing_add(y));
+    chk!(c, "OverflowingAdd::overflowing_add", <U!() as nt::ops::overflowing::OverflowingAdd>::overflowing_add(&x, &y), &e);
+    let e = inh!(c, x.overflowing_sub(y));
+    chk!(c, "OverflowingSub::overflowing_sub", <U!() as nt::ops::overflowing::OverflowingSub>::overflowing_sub(&x, &y), &e);
+    let e = inh!(c, x.overflowing_mul(y));
+    chk!(c, "OverflowingMul::overflowing_mul", <U!() as nt::ops::overflowing::OverflowingMul>::overflowing_mul(&x, &y), &e);
+
+    // Parsing and powers.
+    let e = inh!(c, <U!()>::from_str_radix(text, u64::from(radix)));
+    chk!(c, "Num::from_str_radix", <U!() as nt::Num>::from_str_radix(text, radix), &e);
+    let e = inh!(c, x.pow(ex));
+    chk!(c, "Pow<Uint>::pow", <U!() as nt::Pow<U!()>>::pow(x, ex), &e);
+
+    // Conversions to and from primitives.
+    to_prim!(c, x; to_u8 u8, to_u16 u16, to_u32 u32, to_u64 u64, to_u128 u128, to_usize usize,
+        to_i8 i8, to_i16 i16, to_i32 i32, to_i64 i64, to_i128 i128, to_isize isize);
+    from_prim!(c, pu; from_u8 u8, from_u16 u16, from_u32 u32, from_u64 u64, from_u128 u128, from_usize usize);
+    from_prim!(c, pi; from_i8 i8, from_i16 i16, from_i32 i32, from_i64 i64, from_i128 i128, from_isize isize);
+
+    // PrimInt.
+    let e = inh!(c, x.count_ones() as u32);
+    chk!(c, "PrimInt::count_ones", <U!() as nt::PrimInt>::count_ones(x), &e);
+    let e = inh!(c, x.count_zeros() as u32);
+    chk!(c, "PrimInt::count_zeros", <U!() as nt::PrimInt>::count_zeros(x), &e);
+    let e = inh!(c, x.leading_zeros() as u32);
+    chk!(c, "PrimInt::leading_zeros", <U!() as nt::PrimInt>::leading_zeros(x), &e);
+    let e = inh!(c, x.leading_ones() as u32);
+    chk!(c, "PrimInt::leading_ones", <U!() as nt::PrimInt>::leading_ones(x), &e);
+    let e = inh!(c, x.trailing_zeros() as u32);
+    chk!(c, "PrimInt::trailing_zeros", <U!() as nt::PrimInt>::trailing_zeros(x), &e);
+    let e = inh!(c, x.trailing_ones() as u32);
+    chk!(c, "PrimInt::trailing_ones", <U!() as nt::PrimInt>::trailing_ones(x), &e);
+    let e = inh!(c, x.rotate_left(s));
+    chk!(c, "PrimInt::rotate_left", <U!() as nt::PrimInt>::rotate_left(x, s32), &e);
+    let e = inh!(c, x.rotate_right(s));
+    chk!(c, "PrimInt::rotate_right", <U!() as nt::PrimInt>::rotate_right(x, s32), &e);
+    chk!(c, "PrimInt::signed_shl", <U!() as nt::PrimInt>::signed_shl(x, s32), &esl);
+    chk!(c, "PrimInt::unsigned_shl", <U!() as nt::PrimInt>::unsigned_shl(x, s32), &esl);
+    chk!(c, "PrimInt::unsigned_shr", <U!() as nt::PrimInt>::unsigned_shr(x, s32), &esr);
+    let e = inh!(c, x.arithmetic_shr(s));
+    chk!(c, "PrimInt::signed_shr", <U!() as nt::PrimInt>::signed_shr(x, s32), &e);
+    let e = inh!(c, x.reverse_bits());
+    chk!(c, "PrimInt::reverse_bits", <U!() as nt::PrimInt>::reverse_bits(x), &e);
+    // Little-endian target: `to_le`/`from_le` are the identity at every width.
+    chk!(c, "PrimInt::to_le", <U!() as nt::PrimInt>::to_le(x), &Ok(x));
+    chk!(c, "PrimInt::from_le", <U!() as nt::PrimInt>::from_le(x), &Ok(x));
+    if B % 8 == 0 {
+        // Byte reversal is only meaningful for whole-byte widths.
+        let e = inh!(c, {
+            let mut v = x.to_le_bytes_vec();
+            v.reverse();
+            <U!()>::from_limbs(limbs_from_le_bytes::<L>(&v))
+        });
+        chk!(c, "PrimInt::swap_bytes", <U!() as nt::PrimInt>::swap_bytes(x), &e);
+        chk!(c, "PrimInt::to_be", <U!() as nt::PrimInt>::to_be(x), &e);
+        chk!(c, "PrimInt::from_be", <U!() as nt::PrimInt>::from_be(x), &e);
+    }
+    // `pow(u32)`: only where the exponent is a value of the type, so that an
+    // inherent call of the same meaning exists.
+    if L > 0 && (L > 1 || u64::from(s32) <= gen::mask(B)) {
+        let e32: U!() = uint(&gen::small(u64::from(s32), B));
+        let e = inh!(c, x.pow(e32));
+        chk!(c, "PrimInt::pow", <U!() as nt::PrimInt>::pow(x, s32), &e);
+    }
+}
+
+// ---------------------------------------------------------------- num-integer
+
+fn num_integer<const B: usize, const L: usize>(c: &mut Cx, a: &[Arg]) {
+    let (x, y): (U!(), U!()) = (uint(a[0].u()), uint(a[1].u()));
+    let e = inh!(c, x.wrapping_div(y));
+    chk!(c, "Integer::div_floor", <U!() as ni::Integer>::div_floor(&x, &y), &e);
+    let e = inh!(c, x.wrapping_rem(y));
+    chk!(c, "Integer::mod_floor", <U!() as ni::Integer>::mod_floor(&x, &y), &e);
+    let e = inh!(c, x.div_ceil(y));
+    chk!(c, "Integer::div_ceil", <U!() as ni::Integer>::div_ceil(&x, &y), &e);
+    let eg = inh!(c, x.gcd(y));
+    chk!(c, "Integer::gcd", <U!() as ni::Integer>::gcd(&x, &y), &eg);
+    let el = inh!(c, x.lcm(y));
+    let r = c.m.call(|| <U!() as ni::Integer>::lcm(&x, &y));
+    c.cmp_unwrapping("Integer::lcm", r, &el);
+    let e = match (&eg, &el) {
+        (Ok(g), Ok(l)) => Ok((*l).map(|l| (*g, l))),
+        (Err(p), _) | (_, Err(p)) => Err(p.clone()),
+    };
+    let r = c.m.call(|| <U!() as ni::Integer>::gcd_lcm(&x, &y));
+    c.cmp_unwrapping("Integer::gcd_lcm", r, &e);
+    let e = inh!(c, {
+        let (gcd, x, y, _sign) = x.gcd_extended(y);
+        ni::ExtendedGcd { gcd, x, y }
+    });
+    chk!(c, "Integer::extended_gcd", <U!() as ni::Integer>::extended_gcd(&x, &y), &e);
+    // Documented meaning: "self is a multiple of other"; num-integer's own
+    // integer impls define the zero case as `self == 0`.
+    let e = inh!(c, if y.is_zero() { x.is_zero() } else { x.wrapping_rem(y).is_zero() });
+    chk!(c, "Integer::is_multiple_of", <U!() as ni::Integer>::is_multiple_of(&x, &y), &e);
+    #[allow(deprecated)]
+    {
+        chk!(c, "Integer::divides", <U!() as ni::Integer>::divides(&x, &y), &e);
+    }
+    let even = a[0].u().first().map_or(true, |l| l & 1 == 0);
+    chk!(c, "Integer::is_even", <U!() as ni::Integer>::is_even(&x), &Ok(even));
+    chk!(c, "Integer::is_odd", <U!() as ni::Integer>::is_odd(&x), &Ok(!even));
+    let e = inh!(c, x.div_rem(y));
+    chk!(c, "Integer::div_rem", <U!() as ni::Integer>::div_rem(&x, &y), &e);
+    chk!(c, "Integer::div_mod_floor", <U!() as ni::Integer>::div_mod_floor(&x, &y), &e);
+    let e = inh!(c, x.wrapping_sub(<U!()>::ONE));
+    chk!(c, "Integer::dec", { let mut t = x; <U!() as ni::Integer>::dec(&mut t); t }, &e);
+    let e = inh!(c, x.wrapping_add(<U!()>::ONE));
+    chk!(c, "Integer::inc", { let mut t = x; <U!() as ni::Integer>::inc(&mut t); t }, &e);
+    // Provided (default) methods: demanded only where the inherent method
+    // yields a value.
+    let e = inh!(c, x.checked_next_multiple_of(y));
+    let r = c.m.call(|| <U!() as ni::Integer>::next_multiple_of(&x, &y));
+    c.cmp_where_defined("Integer::next_multiple_of", r, &e);
+    let e = inh!(c, x.checked_rem(y).map(|r| x.wrapping_sub(r)));
+    let r = c.m.call(|| <U!() as ni::Integer>::prev_multiple_of(&x, &y));
+    c.cmp_where_defined("Integer::prev_multiple_of", r, &e);
+}
+
+// ---------------------------------------------------------------- subtle
+
+fn subtle_op<const B: usize, const L: usize>(c: &mut Cx, a: &[Arg]) {
+    let (x, y): (U!(), U!()) = (uint(a[0].u()), uint(a[1].u()));
+    let idx = a[2].us();
+    let pick = match a[3].n() {
+        0 => false,
+        1 => true,
+        n => panic!("harness: choice {n} is not 0 or 1"),
+    };
+    let ch = || subtle::Choice::from(u8::from(pick));
+    chk!(c, "ct_eq", bool::from(<U!() as subtle::ConstantTimeEq>::ct_eq(&x, &y)), &Ok(x == y));
+    chk!(c, "ct_ne", bool::from(<U!() as subtle::ConstantTimeEq>::ct_ne(&x, &y)), &Ok(x != y));
+    chk!(c, "ct_gt", bool::from(<U!() as subtle::ConstantTimeGreater>::ct_gt(&x, &y)), &Ok(x > y));
+    chk!(c, "ct_lt", bool::from(<U!() as subtle::ConstantTimeLess>::ct_lt(&x, &y)), &Ok(x < y));
+    let sel = if pick { y } else { x };
+    chk!(c, "conditional_select", <U!() as subtle::ConditionallySelectable>::conditional_select(&x, &y, ch()), &Ok(sel));
+    chk!(c, "conditional_assign", { let mut t = x; <U!() as subtle::ConditionallySelectable>::conditional_assign(&mut t, &y, ch()); t }, &Ok(sel));
+    chk!(
+        c,
+        "conditional_swap",
+        { let (mut p, mut q) = (x, y); <U!() as subtle::ConditionallySelectable>::conditional_swap(&mut p, &mut q, ch()); (p, q) },
+        &Ok(if pick { (y, x) } else { (x, y) })
+    );
+    let e = inh!(c, if pick { x.wrapping_neg() } else { x });
+    chk!(c, "conditional_negate", { let mut t = x; <U!() as subtle::ConditionallyNegatable>::conditional_negate(&mut t, ch()); t }, &e);
+    // `bit_ct` is documented to panic for index >= BITS, where `bit` is false.
+    if idx < B {
+        let e = inh!(c, x.bit(idx));
+        chk!(c, "bit_ct", bool::from(x.bit_ct(idx)), &e);
+    }
+}
+
+// ---------------------------------------------------------------- Sum / Product
+
+fn sum_product<const B: usize, const L: usize>(c: &mut Cx, a: &[Arg]) {
+    let xs: Vec<U!()> = a.iter().map(|x| uint(x.u())).collect();
+    c.m.nontrivial(a.iter().filter(|x| !gen::is_zero(x.u())).count() >= 2);
+    let e = inh!(c, xs.iter().fold(<U!()>::ZERO, |s, v| s.wrapping_add(*v)));
+    chk!(c, "Sum<Uint>", xs.iter().copied().sum::<U!()>(), &e);
+    chk!(c, "Sum<&Uint>", xs.iter().sum::<U!()>(), &e);
+    let e = inh!(c, xs.iter().fold(<U!()>::ONE, |s, v| s.wrapping_mul(*v)));
+    chk!(c, "Product<Uint>", xs.iter().copied().product::<U!()>(), &e);
+    chk!(c, "Product<&Uint>", xs.iter().product::<U!()>(), &e);
+}
+
+// ---------------------------------------------------------------- Zeroize
+
+fn zeroize_op<const B: usize, const L: usize>(c: &mut Cx, a: &[Arg]) {
+    let x: U!() = uint(a[0].u());
+    chk!(c, "Zeroize for Uint", { let mut t = x; <U!() as zeroize::Zeroize>::zeroize(&mut t); t }, &Ok(<U!()>::ZERO));
+    chk!(
+        c,
+        "Zeroize for Bits",
+        { let mut t = Bits::from(x); <Bits<B, L> as zeroize::Zeroize>::zeroize(&mut t); t.into_inner() },
+        &Ok(<U!()>::ZERO)
+    );
+}
+
+// ================================================================ workload
+
+fn not_limbs(v: &[u64], bits: usize) -> Vec<u64> {
+    gen::canon(v.iter().map(|x| !x).collect(), bits)
+}
+
+/// Shift / rotate / index amounts: every limb and width boundary, over-wide
+/// amounts up to BITS + 130, and the extremes of each integer amount type.
+fn amounts(bits: usize) -> Vec<u64> {
+    let mut v: Vec<u64> = vec![0, 1, 2, 7, 8, 31, 32, 33, 63, 64, 65, 127, 128, 129, 191, 192, 255, 256];
+    for d in [-65i64, -64, -63, -2, -1, 0, 1, 2, 63, 64, 65, 127, 128, 130] {
+        let k = bits as i64 + d;
+        if k >= 0 {
+            v.push(k as u64);
+        }
+    }
+    v.push(bits as u64 / 2);
+    v.push(2 * bits as u64);
+    for t in [i8::MAX as u64, u8::MAX as u64, i16::MAX as u64, u16::MAX as u64, i32::MAX as u64, u32::MAX as u64] {
+        v.extend([t - 1, t, t + 1]);
+    }
+    v.extend([i64::MAX as u64 - 1, i64::MAX as u64, i64::MAX as u64 + 1, u64::MAX - 1, u64::MAX]);
+    v.extend([1 << 32, (1 << 32) + 64, 1 << 40]);
+    v.sort_unstable();
+    v.dedup();
+    v
+}
+
+fn rand_amount(r: &mut Rng, bits: usize) -> u64 {
+    match r.below(16) {
+        0..=8 => r.below(bits + 1) as u64,
+        9..=11 => r.range(bits, bits + 130) as u64,
+        12 => *r.pick(&amounts(bits)),
+        13 => r.u64() >> r.below(64),
+        14 => 64 * r.below(bits / 64 + 3) as u64,
+        _ => r.below(256) as u64,
+    }
+}
+
+/// Amount for the `u32`/`usize` shared operand of the trait and wrapper ops.
+fn rand_amount32(r: &mut Rng, bits: usize) -> u64 {
+    let s = rand_amount(r, bits);
+    if s > u64::from(u32::MAX) {
+        s >> 32
+    } else {
+        s
+    }
+}
+
+/// Byte strings for the slice decoders: mostly exactly BYTES long, in and out
+/// of range, sometimes shorter or longer.
+fn rand_bytes(r: &mut Rng, bits: usize) -> Vec<u8> {
+    let nb = (bits + 7) / 8;
+    let len = match r.below(8) {
+        0 => r.below(nb + 1),
+        1 => nb + r.range(1, 2),
+        _ => nb,
+    };
+    let mut v: Vec<u8> = match r.below(6) {
+        0 => r.bytes(len),
+        1 => vec![0xff; len],
+        2 => vec![0; len],
+        _ => {
+            // the bytes of an in-range value, little- or big-endian
+            let limbs = gen::hostile(r, bits);
+            let mut b: Vec<u8> = limbs.iter().flat_map(|l| l.to_le_bytes()).collect();
+            b.resize(len, 0);
+            if r.bool() {
+                b.reverse();
+            }
+            b
+        }
+    };
+    if len > 0 && r.chance(1, 8) {
+        let i = if r.bool() { 0 } else { len - 1 };
+        v[i] = *r.pick(&[0u8, 1, 0x7f, 0x80, 0xff]);
+    }
+    v
+}
+
+/// Texts for the parsers: digits of in-range and slightly over-range values in
+/// the chosen radix, plus the usual mutations.
+fn rand_text(r: &mut Rng, bits: usize) -> (String, u64) {
+    let radix: u64 = match r.below(16) {
+        0..=2 => 10,
+        3..=5 => 16,
+        6 => 2,
+        7 => 8,
+        8 => 36,
+        9..=11 => r.range(2, 36) as u64,
+        12 => r.range(37, 64) as u64,
+        13 => *r.pick(&[0u64, 1, 65, 100, 255, 256, u32::MAX as u64]),
+        _ => *r.pick(&[3u64, 7, 32, 35, 64]),
+    };
+    let wide = if r.chance(1, 6) { bits + r.range(1, 9) } else { bits };
+    let v = big::big(&gen::hostile(r, wide));
+    let mut s: String = if (2..=36).contains(&radix) {
+        v.to_str_radix(radix as u32)
+    } else {
+        const A64: &[u8] = b"ABCDEFGHIJKLMNOPQRSTUVWXYZabcdefghijklmnopqrstuvwxyz0123456789+/";
+        (0..r.below(bits / 5 + 3)).map(|_| *r.pick(A64) as char).collect()
+    };
+    match r.below(16) {
+        0 => s = s.to_uppercase(),
+        1 => {
+            let i = r.below(s.len() + 1);
+            s.insert(i, '_');
+        }
+        2 => {
+            let i = r.below(s.len() + 1);
+            s.insert(i, *r.pick(&['!', ' ', 'g', 'z', 'Z', '-', '+', '.', 'é', '9', '/']));
+        }
+        3 => s = String::new(),
+        4 => s = format!("{}{}", r.pick(&["0x", "0b", "0o", "0X", "+", "000", "0_"]), s),
+        5 => {
+            s.truncate(r.below(s.len() + 1));
+        }
+        _ => {}
+    }
+    (s, radix)
+}
+
+fn rand_prims(r: &mut Rng) -> (u128, i128) {
+    let pu = match r.below(8) {
+        0 => 0,
+        1 => u128::MAX,
+        2 => 1u128 << r.below(128),
+        3 => (1u128 << r.below(128)) - 1,
+        4 => r.u64() as u128 >> r.below(64),
+        5 => r.below(300) as u128,
+        _ => r.u128() >> r.below(128),
+    };
+    let pi = match r.below(10) {
+        0 => 0,
+        1 => i128::MAX,
+        2 => i128::MIN,
+        3 => -1,
+        4 => 1i128 << r.below(127),
+        5 => -(1i128 << r.below(127)),
+        6 => (r.u64() >> r.below(64)) as i128,
+        7 => -((r.u64() >> r.below(64)) as i128),
+        8 => r.below(300) as i128 - 150,
+        _ => (r.u128() >> r.below(128)) as i128,
+    };
+    (pu, pi)
+}
+
+/// Exponent for `Pow`: mostly short (cost is linear in its bit length).
+fn rand_exp(r: &mut Rng, bits: usize) -> Vec<u64> {
+    match r.below(8) {
+        0 => gen::hostile(r, bits),
+        1 => gen::zero(bits),
+        2 => gen::small(1, bits),
+        _ => {
+            let len = r.below(bits.min(20) + 1);
+            gen::with_bit_len(r, len, bits)
+        }
+    }
+}
+
+fn wrapper_case(m: &mut Mon, r: &mut Rng, bits: usize, a: &[u64], b: &[u64], s: u64) {
+    let (text, radix) = rand_text(r, bits);
+    let bytes = rand_bytes(r, bits);
+    m.case("bits_wrapper", bits, vec![au(a), au(b), Arg::N(s.into()), Arg::B(bytes), Arg::S(text), Arg::N(radix.into())]);
+}
+
+fn traits_case(m: &mut Mon, r: &mut Rng, bits: usize, a: &[u64], b: &[u64], z: &[u64], s: u64) {
+    let (text, radix) = rand_text(r, bits);
+    let bytes = rand_bytes(r, bits);
+    let (pu, pi) = rand_prims(r);
+    let e = rand_exp(r, bits);
+    m.case(
+        "num_traits",
+        bits,
+        vec![
+            au(a),
+            au(b),
+            au(z),
+            au(&e),
+            Arg::N(s.into()),
+            Arg::N(pu),
+            Arg::I(pi),
+            Arg::B(bytes),
+            Arg::S(text),
+            Arg::N(radix.into()),
+        ],
+    );
+}
+
+fn pair_cases(m: &mut Mon, bits: usize, a: &[u64], b: &[u64], idx: usize, pick: usize) {
+    m.case("binop", bits, vec![au(a), au(b)]);
+    m.case("num_integer", bits, vec![au(a), au(b)]);
+    m.case("subtle", bits, vec![au(a), au(b), an(idx), an(pick)]);
+}
+
+fn workload(m: &mut Mon, bits: usize) {
+    let bd = gen::boundary(bits);
+    let am = amounts(bits);
+    let wide = bits > 256;
+
+    // ---- directed: boundary values against structured partners.
+    let mut r = m.stream("c20.directed", bits);
+    for (i, a) in bd.iter().enumerate() {
+        if !m.keep() {
+            continue;
+        }
+        m.case("zeroize", bits, vec![au(a)]);
+        let mut partners = vec![a.clone(), not_limbs(a, bits), gen::zero(bits), gen::max(bits)];
+        if bits > 0 {
+            partners.push(gen::small(1, bits));
+            partners.push(gen::small(2, bits));
+            partners.push(gen::small(3, bits));
+            for _ in 0..3 {
+                partners.push(r.pick(&bd).clone());
+            }
+        }
+        for (j, b) in partners.iter().enumerate() {
+            pair_cases(m, bits, a, b, (i * 7 + j * 13) % (bits + 1), (i + j) % 2);
+            pair_cases(m, bits, b, a, (i * 11 + j * 5) % (bits + 1), (i + j + 1) % 2);
+        }
+        // a few amounts per value for the shift operators; the full grid follows
+        for k in 0..6 {
+            let s = am[(i * 6 + k) % am.len()];
+            m.case("shift", bits, vec![au(a), Arg::N(s.into())]);
+        }
+        for k in 0..2 {
+            let b = partners[(i + k) % partners.len()].clone();
+            let z = r.pick(&bd).clone();
+            let s = am[(i * 2 + k) % am.len()];
+            let s32 = if s > u64::from(u32::MAX) { s >> 32 } else { s };
+            wrapper_case(m, &mut r, bits, a, &b, s32);
+            traits_case(m, &mut r, bits, a, &b, &z, s32);
+        }
+    }
+    // ---- directed: the full amount grid on a handful of dense values.
+    let mut dense = vec![gen::max(bits), gen::small(1, bits), gen::pow2(bits.saturating_sub(1), bits)];
+    for _ in 0..3 {
+        dense.push(gen::uniform(&mut r, bits));
+    }
+    for a in &dense {
+        for &s in &am {
+            if !m.keep() {
+                continue;
+            }
+            m.case("shift", bits, vec![au(a), Arg::N(s.into())]);
+            if s <= u64::from(u32::MAX) {
+                let b = r.pick(&bd).clone();
+                wrapper_case(m, &mut r, bits, a, &b, s);
+                traits_case(m, &mut r, bits, a, &b, &b, s);
+            }
+        }
+    }
+    // ---- directed: values that differ in one limb and agree, or disagree the
+    // other way, in another (limb-order mistakes in the comparisons, selects and
+    // limb-wise operators).
+    let n = gen::nlimbs(bits);
+    for lo in 0..n {
+        for hi in lo + 1..n {
+            if !m.keep() {
+                continue;
+            }
+            let top = if hi == n - 1 { gen::mask(bits) } else { u64::MAX };
+            let mut a = gen::zero(bits);
+            let mut b = gen::zero(bits);
+            a[hi] = 1;
+            b[lo] = u64::MAX;
+            pair_cases(m, bits, &a, &b, 64 * lo, 1);
+            pair_cases(m, bits, &b, &a, 64 * hi, 0);
+            b[hi] = 1;
+            a[lo] = 2;
+            pair_cases(m, bits, &a, &b, 64 * lo + 1, 0);
+            pair_cases(m, bits, &b, &a, 64 * hi, 1);
+            a[hi] = top;
+            b[hi] = top & !1;
+            pair_cases(m, bits, &a, &b, 64 * hi + 1, 1);
+            pair_cases(m, bits, &b, &a, 64 * lo + 63, 0);
+        }
+    }
+    // ---- directed: empty and singleton iterators.
+    m.case("sum_product", bits, vec![]);
+    m.case("sum_product", bits, vec![au(&gen::max(bits))]);
+    m.case("sum_product", bits, vec![au(&gen::max(bits)), au(&gen::max(bits)), au(&gen::small(2, bits))]);
+
+    // ---- seeded random cases.
+    let mut r = m.stream("c20.random", bits);
+    let base = if bits == 0 {
+        1500
+    } else if bits <= 64 {
+        24000
+    } else if !wide {
+        18000
+    } else {
+        9000
+    };
+    let iters = m.iters(base);
+    for i in 0..iters {
+        if i % 128 == 0 && m.time_up() {
+            break;
+        }
+        let a = gen::hostile(&mut r, bits);
+        let b = match r.below(10) {
+            0 => not_limbs(&a, bits),
+            1 => a.clone(),
+            2 => gen::zero(bits),
+            3 => {
+                // a divisor of comparable size: same top limb region
+                let len = gen::bit_len(&a).saturating_sub(r.below(3));
+                gen::with_bit_len(&mut r, len, bits)
+            }
+            4 => {
+                // short divisor
+                let len = r.range(0, bits.min(64));
+                gen::with_bit_len(&mut r, len, bits)
+            }
+            _ => gen::hostile(&mut r, bits),
+        };
+        let idx = match r.below(4) {
+            0 => r.range(bits, bits + 70),
+            _ => r.below(bits + 1),
+        };
+        pair_cases(m, bits, &a, &b, idx, r.below(2));
+        let s = rand_amount(&mut r, bits);
+        m.case("shift", bits, vec![au(&a), Arg::N(s.into())]);
+        let s = rand_amount(&mut r, bits);
+        m.case("shift", bits, vec![au(&b), Arg::N(s.into())]);
+        let s32 = rand_amount32(&mut r, bits);
+        wrapper_case(m, &mut r, bits, &a, &b, s32);
+        let z = gen::hostile(&mut r, bits);
+        let s32 = rand_amount32(&mut r, bits);
+        traits_case(m, &mut r, bits, &a, &b, &z, s32);
+        if i % 4 == 0 {
+            let k = r.range(0, 9);
+            let mut terms = vec![au(&a), au(&b), au(&z)];
+            for _ in 0..k {
+                terms.push(au(&gen::hostile(&mut r, bits)));
+            }
+            terms.truncate(k);
+            m.case("sum_product", bits, terms);
+        }
+        if i % 16 == 0 {
+            m.case("zeroize", bits, vec![au(&a)]);
+        }
+    }
+}
+
+fn main() {
+    let mut m = Mon::new("C20", dispatch);
+    // Also resets the per-call loop counters of the verification hooks for every
+    // case (gcd/lcm/pow facades reach the counted loops).
+    m.use_hooks = true;
+    if !m.replay_if_requested() {
+        for &bits in WIDTHS {
+            if m.width_enabled(bits) {
+                workload(&mut m, bits);
+            }
+        }
+    }
+    let kinds: Vec<&'static str> = KINDS.with(|k| k.borrow().iter().copied().collect());
+    m.note("facade_entry_points", json!(kinds.len()));
+    m.note("facade_entry_point_list", json!(kinds));
+    m.finish();
+}
